@@ -1,3 +1,11 @@
-//! Hand-written K harnesses: contracts stated on real run-time functions of the `sylvia` crate.
+//! Hand-written fixtures and K harnesses.
 #[cfg(feature = "g_runtime")]
 pub mod runtime;
+#[cfg(feature = "g_custom")]
+pub mod custom;
+#[cfg(feature = "g_generic")]
+pub mod generic;
+#[cfg(feature = "g_attr")]
+pub mod attr;
+#[cfg(feature = "g_exec")]
+pub mod exec;
